@@ -314,13 +314,18 @@ pub fn preprocess_str<T: AsRef<Path>, U: AsRef<Path>, V: BuildHasher>(
             NodeEvent::Leave(RefNode::SourceDescriptionNotDirective(x)) => {
                 let locate: Locate = x.try_into().unwrap();
                 // If the item is whitespace, last_item_line should not be updated
-                if !locate.str(s).trim().is_empty() {
-                    last_item_line = Some(locate.line);
+                let text = locate.str(s).trim_end();
+                if !text.is_empty() {
+                    // the line on which the item ends (it may span several lines)
+                    let newlines = text.bytes().filter(|x| *x == b'\n').count() as u32;
+                    last_item_line = Some(locate.line + newlines);
                 }
             }
             NodeEvent::Leave(RefNode::CompilerDirective(x)) => {
                 let locate: Locate = x.try_into().unwrap();
-                last_item_line = Some(locate.line);
+                let text = locate.str(s).trim_end();
+                let newlines = text.bytes().filter(|x| *x == b'\n').count() as u32;
+                last_item_line = Some(locate.line + newlines);
             }
             _ => (),
         }
